@@ -86,6 +86,49 @@ CHECKS = {
    text="spec/Trace_Prefix.tla: an instance built from v and fed v k times (k in {1,2,n-1,n,n+1,3n}) returns a constant output -- bit-equal for selections/signals/counters, within the rounding allowance WITHOUT drift term for arithmetic outputs (squared domain for StDev) -- and then produces the same later outputs as an instance without the extra copies. Recorded for 42 method subjects (all lengths classes, special values 0, +-2^39, 2^-19, negative, flat and zero-volume candles) and for the indicators with every MA kind.",
    design_ref="DESIGN.md 5/C08",
    note="Exempt as the property states: windowless Integral/ADI (and indicators configured with them), CollapseTimeframe, Renko volume. Ratio outputs (CCI, ROC, TSI) are compared on streams without exactly repeated values."),
+
+ "C05": dict(
+   technique="TLA+ trace validation: one TLA+ module per indicator (36) carrying the indicator's state from init in exact fixed point; recorded executions of the real indicators validated value by value",
+   category="model_checking",
+   text="spec/I_<Name>.tla specify all 36 indicators (values) on top of MA.tla (the 15 MA kinds), Linear.tla, Recursive.tla. The harness initialises real instances from default and randomised valid configurations (reached through set(name, text), all MA kinds, all sources) and feeds valid candle streams (walks, plateaus, gaps, scale jumps, zero-volume bars); Trace_Ind carries the spec's own state and accepts a step only if every raw value is within the allowance of its formula (absolute, quotient by cross-multiplication, guarded quotient, squared domain for bands on a standard deviation) and the result has exactly size() values and signals.",
+   design_ref="DESIGN.md 5/C05",
+   note="Each module names the code's deviations from the textbook (documented crate behaviour is followed). FisherTransform's atanh is bracketed by a series to 1e-22. Vidya is used only for price-fed MA fields (its factor is 0/0 on exactly constant derived series)."),
+ "C06": dict(
+   technique="TLA+ trace validation: signal state machines over the implementation's own logged values (exact float ordering keys), branching on near-threshold comparisons",
+   category="model_checking",
+   text="Each I_<Name>.tla gives every signal as a deterministic state machine over the indicator's logged values, the candle and the config: crossings decided exactly on the ordering keys of the logged floats, zone tests against float-computed bounds branch when within rounding, reversal detectors as coded (model-checked against the pivot definition in C14), counters and latches, proportional signals through Action::from's step function. Trace_Ind explores the branches and accepts iff some path explains every recorded signal. The documented rule of TrendStrengthIndex (which the code contradicts) is validated separately and reported as a known finding.",
+   design_ref="DESIGN.md 5/C06",
+   note="Because the oracle takes the implementation's values as input, C06 is independent of C05's tolerance. After a non-numeric value in mid-stream the rest of that program's signals is not checked."),
+ "C07": dict(
+   technique="TLA+ model checking with a scaled-down PeriodType beyond counter saturation + TLA+ trace validation of long recorded streams and of checkpoints after 10^5 / 10^7 steps",
+   category="model_checking",
+   text="(i) MC_Tok with PMAX 7/15: the reversal detectors equal the pivot definition on every stream of any length (complete state graph), i.e. far beyond saturation of the position counter; recorded streams of 1500/20000 inputs on the real u8 counters validated by Trace_Tok. (ii) 19 numeric methods x 4 lengths process 10^5 (quick) / 10^7 (thorough) inputs with regime changes, then a checkpoint logs the recent inputs and the global magnitude; Trace_Num rebuilds the state from the recent inputs alone and checks the next outputs against the definition with the allowance at step t (linear in t): a long past behaves like a fresh instance primed with the last window.",
+   design_ref="DESIGN.md 5/C07",
+   note="Indicators are covered through their methods; exponential kinds drop inputs older than 24/alpha steps (weight < e^-48)."),
+ "C11": dict(
+   technique="TLA+ model of the configuration contract instantiated with the catalogue of public parameters (TLC enumerates every (name, text)), replayed on static and dyn configurations; Api.tla programs on every indicator (static vs dyn)",
+   category="model_checking",
+   text="spec/Config.tla: set(name, text) changes exactly the named public parameter to the value the text denotes for its type, else Err and unchanged; TLC enumerates per indicator all fields + foreign names x 22 texts and two-step sequences (29k programs), the harness replays them on the real static and dynamically dispatched configurations (observed through Serialize). Api.tla with the indicator operation set (init, next, over, init_fn, clone, snapshot) replayed on all 36 indicators, static and dyn, bit-exact; name(), size(), config(), default validity; every result of every C05/C06 trace has exactly size() values and signals.",
+   design_ref="DESIGN.md 5/C11",
+   note="The catalogue is read from the serialized default configurations (the struct definitions)."),
+ "C12": dict(
+   technique="TLA+ invariants (Ranges.tla) evaluated by TLC on every step of recorded executions with exactly flat stretches, scale drops and zero-volume bars",
+   category="model_checking",
+   text="spec/Ranges.tla: Aroon, RSI, MFI, Stochastic (non-overshooting MA kinds) in [0,1]; Chande momentum, Chaikin money flow, TSI-based in [-1,1]; Bollinger/Keltner/Envelopes/PriceChannel ordered; Donchian contains the bar's high and low; SAR on the side opposite to its trend; finiteness where defined -- asserted (up to 1e-9) on the logged values of every step of regime-shaped traces of all indicators; non-negativity of LinearVolatility, StDev, MeanAbsDev, MedianAbsDev, TR follows from the two-sided acceptance around a non-negative exact value (Trace_Num), CLV in [-1,1] from Trace_Candle.",
+   design_ref="DESIGN.md 5/C12",
+   note="ChandeMomentumOscillator's range violation after a scale drop is an open known finding with its own traces."),
+ "C19": dict(
+   technique="TLA+ model checking of the in-bounds invariants at every unchecked access site + TLC-generated tables/behaviours replayed on the unsafe build + identical transcripts of recorded programs under both builds",
+   category="model_checking",
+   text="Window.tla (push/newest/oldest/Index/iterators: InB, WIndexInBounds, WellFormed for all capacities and phases) and Selection.tla's SMM (find_index/find_insert_index results and the shifted range inside the slice in every reachable state) are model-checked; the TLC-emitted Window tables and token behaviours are replayed on a harness built with unsafe_performance; seven recorders (window, selection, reversal, numeric finite/recursive, indicators, converters) run under both builds with calls that panic in the safe build left out, transcripts must be byte-identical.",
+   design_ref="DESIGN.md 5/C19",
+   note="Memory safety is claimed for the explored state space (model + conformance), not in general; Miri is an auxiliary monitor."),
+ "C20": dict(
+   technique="identical transcripts across PeriodType builds for parameters that fit u8; TLA+ trace validation with PMAX = 65535 for lengths beyond 255 and with eps = 2^-23 for the f32 build; MC_Window with 16-bit period arithmetic",
+   category="model_checking",
+   text="(a) u16/u32 (thorough: u64, u16+unsafe) builds produce byte-identical transcripts to the default build for seven recorders pinned to PMAX = 255; (b) on the u16 build, windows up to 999 and methods with lengths up to 999/299 are validated by Trace_Window / Trace_Tok / Trace_Num with PMAX = 65535; MC_Window re-checked with PMAX = 65535 for capacities 254..257, 300, 1000; (c) the value_type_f32 build is validated by Trace_Num with the single-precision allowance.",
+   design_ref="DESIGN.md 5/C20",
+   note="Generators are pinned through YV_PMAX so that programs are the same across builds."),
 }
 
 NOT_YET = {
